@@ -512,6 +512,35 @@ func runC19(t *simrt.Tape, o Opts) Outcome {
 			}
 		}
 		w.Drain()
+		// however a stream ended (end-of-stream, a transport error on Recv or Send, a cancelled client)
+		// its handler has closed the session it opened: once the harness has closed its own sessions and
+		// the factory, no intermediate key of the process is still allocated (system keys are left to C09)
+		if !ownCtor && len(w.Viols) == 0 {
+			var own []string
+			for part := range seOf {
+				own = append(own, part)
+			}
+			sortStrings(own)
+			for _, part := range own {
+				if seOf[part] != nil {
+					w.CloseSess(seOf[part])
+				}
+			}
+			w.CloseProc(p)
+			w.Drain()
+			count(st.Oracle, "sessions-closed-when-streams-ended")
+			var ends []string
+			for _, pl := range plans {
+				ends = append(ends, endOf(pl))
+			}
+			idx := w.KeyPlain()
+			for _, sec := range w.Ledger.LiveOf(p.ID) {
+				if name := idx[sec.FP]; strings.HasPrefix(name, "_IK_") {
+					w.Violate("session-left-open", "session-left-open-after-stream-end", "after every stream has ended and the factory is closed, intermediate key %s is still allocated: a stream's handler did not close its session (streams ended by: %v)", name, ends)
+					break
+				}
+			}
+		}
 		names := make([]string, len(plans[0].seq))
 		for i, k := range plans[0].seq {
 			names[i] = rqNames[k]
